@@ -523,6 +523,9 @@ func TestVF_C14(t *testing.T) {
 			}
 			return m
 		}
+		// fetchMissingSubranges works in goroutines of its own: a panic there cannot be recovered here and
+		// kills the process; the driver then reports the case named on the last VF-INFLIGHT line.
+		fmt.Printf("VF-INFLIGHT C14 case=%d seed=%d subrange=%d max_sub_requests=%d objects=%v ops=%d (replay: VERIF_SEED=%d bin/vcheck C14 --case %d)\n", c, r.Seed(), cfg.Subrange, cfg.MaxSubReq, cfg.Objects, total, r.Seed(), c)
 		if cfg.Goroutines == 1 {
 			for _, op := range streams[0] {
 				env.do(op)
